@@ -369,7 +369,7 @@ def parse_impl(lines):
                 elif w[0] == "FOLD":
                     st["fold"][w[1]] = float.fromhex(w[2])
                 elif w[0] == "ROT" and w[1] == "v":
-                    st.setdefault("rot", {})[int(w[2])] = [float.fromhex(x) for x in w[4:9]]
+                    st.setdefault("rot", {})[int(w[2])] = [float.fromhex(x) for x in w[4:9]] + [int(w[9])] + [float.fromhex(x) for x in w[10:]]
                 elif w[0] == "ATOMF":
                     st["atomf"][int(w[1])] = [float.fromhex(x) for x in w[2:5]]
             except ValueError:
@@ -402,9 +402,9 @@ def bias_force(case, value):
     if b["type"] == "linear":
         return -b["k"]
     d = value - b["c"]
-    # colvar::dist2_lgrad: a homogeneous variable (all coefficients +-1) uses the metric of its FIRST component, and
-    # components are created in the alphabetical order of their keywords (std::map), not in configuration order
-    if all(abs(c["coeff"]) == 1.0 for c in case["comps"]) and min(c["kind"] for c in case["comps"]) == "dihedral":
+    # colvar::dist2_lgrad (after the C18 repair in /repo main): the periodic difference is used only when the variable
+    # itself is periodic, i.e. all its components are periodic with the same period (here: dihedrals, coefficients +-1)
+    if periodic(case):
         d = d - 360.0 * math.floor(d / 360.0 + 0.5)
     return -b["k"] * d
 
@@ -462,8 +462,13 @@ def model_line(case, isteps):
         p.append(vl(step_eforce(case, isteps, t)))
         p.append(hx(0.0 if s.get("off") else bias_force(case, isteps[t]["cv"].get("v", float("nan")))))
         for ci in rot_indices(case):
-            p.append(" ".join(hx(x) for x in isteps[t].get("rot", {}).get(ci, [1.0, 0.0, 0.0, 0.0, 0.0])))
+            p.append(rot_txt(isteps[t].get("rot", {}).get(ci, [1.0, 0.0, 0.0, 0.0, 0.0, 0]), True))
     return " ".join(p)
+
+
+def rot_txt(vals, _=True):
+    """q0 q1 q2 q3 jd nfit fit..: the count is an integer"""
+    return " ".join(hx(x) for x in vals[:5]) + " %d " % int(vals[5]) + " ".join(hx(x) for x in vals[6:])
 
 
 def rot_indices(case):
@@ -571,15 +576,13 @@ def gen_comp(r, kind, atoms, overlap=False):
 
 def inverse_ok(case):
     """the configuration satisfies the hypotheses of the inverse theorems: groups pairwise disjoint, components on
-    disjoint atoms, centred rmsd/eigenvector groups fitted on the component's own reference positions"""
+    disjoint atoms"""
     seen = set()
     for c in case["comps"]:
         at = comp_atoms(c)
         if len(set(at)) != len(at) or seen & set(at):
             return False
         seen |= set(at)
-        if c.get("center") and cog(c["gref"], range(1, len(c["ids"]) + 1)) != cog(c["refs"], range(1, len(c["ids"]) + 1)):
-            return False
     return True
 
 
